@@ -105,3 +105,22 @@ type_suppression* w_ts_kind_new(bool consider, unsigned kind)
   return s;
 }
 }
+extern "C" {
+// a real function_suppression naming the function "f" plus any subset of the four file / SONAME pattern properties
+function_suppression* w_fs_file_new(const bool* cfg)
+{
+  function_suppression* s = new function_suppression;
+  s->set_change_kind(function_suppression::ALL_CHANGE_KIND);
+  s->set_name("f");
+  if (cfg[0]) s->set_file_name_regex_str("F(");
+  if (cfg[1]) s->set_file_name_not_regex_str("G(");
+  if (cfg[2]) s->set_soname_regex_str("S(");
+  if (cfg[3]) s->set_soname_not_regex_str("T(");
+  return s;
+}
+bool w_fs_suppresses_ctx(const function_suppression* s, const abigail::ir::function_decl* fn, unsigned k, abigail::comparison::diff_context* fake_ctxt)
+{
+  return s->suppresses_function(fn, static_cast<function_suppression::change_kind>(k),
+				abigail::comparison::diff_context_sptr(abigail::comparison::diff_context_sptr(), fake_ctxt));
+}
+}
